@@ -368,7 +368,7 @@ def cases(tier, seed):
     out = []
     quick = tier == "quick"
     # local scores: every (variable, parent subset) of each data frame
-    nframes = 14 if quick else 150
+    nframes = 10 if quick else 150
     for f in range(nframes):
         ncols = rng.choice([2, 3, 4, 4, 5, 5]) if not quick else rng.choice([2, 3, 4, 4, 5])
         nrows = rng.choice([1, 2, 3, 5, 8, 12, 20, 40])
@@ -393,7 +393,7 @@ def cases(tier, seed):
                     "pseed": rng.randint(0, 10**6), "opts": local_opts(rng)})
     # categorical dtype with unused categories (explicit categories= and row-filtered frames), with and without
     # state_names: without them only the observed values are states, with them every declared state counts
-    for f in range(50 if quick else 400):
+    for f in range(40 if quick else 400):
         ncols = rng.choice([2, 3, 3, 4])
         data = gen_data(rng, ncols, rng.choice([2, 3, 5, 8, 15]), declare_p=rng.choice([0.0, 0.0, 0.5, 1.0]),
                         force_cat=True)
@@ -421,7 +421,7 @@ def cases(tier, seed):
         out.append({"kind": "local", "data": data, "x": x, "ps": ps, "ess": rng.choice([0.001, 0.1, 0.3, 64, 1000]),
                     "pseed": rng.randint(0, 10**6), "opts": o})
     # more than 256 states in one column (as child, as parent, in a network)
-    for f in range(3 if quick else 20):
+    for f in range(2 if quick else 20):
         data = gen_wide(rng)
         x, ps = rng.choice([(0, [1]), (1, [0]), (1, [0, 2]), (0, []), (2, [1, 0])])
         o = local_opts(rng)
